@@ -109,7 +109,29 @@ fn gen_nodes(lang: &'static Lang, rng: &mut Rng, knobs: &Knobs, depth: usize, co
         if *budget == 0 {
             break;
         }
-        let pick = rng.below(11);
+        let pick = rng.below(12);
+        if pick == 11 {
+            // comments inside a string-like construct: they are comments all the same
+            if *budget >= 1 && matches!(lang.name, "bash" | "js" | "python") {
+                *budget -= 1;
+                *counter += 1;
+                let name = format!("n{}", *counter);
+                let mut tag = TagSrc::simple(&[("name", name.as_str())]);
+                if knobs.echo {
+                    let d = crate::props::mix::scripts_dir();
+                    tag.attrs.push(Attr { ws: " ".into(), name: "check-lua".into(), val: Some((String::new(), String::new(), AVal::Dq(format!("{d}/echo.lua")))) });
+                    tag.attrs.push(Attr { ws: " ".into(), name: "check-lua-pattern".into(), val: Some((String::new(), String::new(), AVal::Dq("[\\s\\S]*".into()))) });
+                }
+                let line = |indent: &str| Place { form: Form::Line(0), indent: indent.to_string(), pre: " ".into(), post: String::new(), trailing: String::new() };
+                let (before, start, body, end, after) = match lang.name {
+                    "bash" => ("hosts=\"$(", line(""), vec![GNode::Text("echo v1".into())], line(""), ")\""),
+                    "js" => ("const t = `${", line(""), vec![GNode::Text("v1,".into())], line(""), "1}`;"),
+                    _ => ("x = (", line("\"a\"  "), vec![], line("\"b\"  "), ")"),
+                };
+                nodes.push(GNode::Wrap { before: before.into(), inner: vec![GNode::Blk(GBlock { tag, start, end, end_tag: "</block>".into(), body })], after: after.into() });
+            }
+            continue;
+        }
         if pick == 10 {
             // nested blocks starting in one comment, i.e. on one line (listed left to right)
             if *budget >= 2 {
